@@ -500,11 +500,200 @@ func (g *sgen) panicking() string {
 	return "func() {\n\tdefer func() { rec.R(\"rec\", recover()) }()\n\t" + s + "\n}()"
 }
 
+// depMulti: a multi-assignment with 2-4 places in any mix and order of {variable, index
+// variable, a[i], m[k], *px, ps.f, x[i].f, blank} whose index / key / pointer operands read
+// variables (i, j, px, ps) that may be ASSIGNED BY THE SAME STATEMENT, before or after them
+// in the list; right-hand sides all constants, all non-constants or mixed (gomacro chooses
+// between a plain sequence of single assignments and the two-phase form by these properties).
+func (g *sgen) depMulti() string {
+	type dplace struct {
+		text  string
+		typ   string // "T", "int", "px", "ps", "blankT", "blankI"
+		sets  string // control variable assigned by this place
+		reads []string
+	}
+	n := g.Int(2, 4, "dep-n")
+	mode := g.OneOf("dep-mode", "const", "nonconst", "mixed")
+	ptrOK := mode != "const" && !(g.T.name == "complex128" && g.known("F-C02-10"))
+	idxOf := func(v string) (string, []string) {
+		other := "j"
+		if v == "j" {
+			other = "i"
+		}
+		switch g.Pick(5, "dep-idx") {
+		case 0, 1:
+			return v, []string{v}
+		case 2:
+			return "(" + v + "+1)&3", []string{v}
+		case 3:
+			return "(" + v + "+" + other + ")&3", []string{"i", "j"}
+		default:
+			return fmt.Sprintf("%sk(%d, %s)", g.px, g.nextTag(), v), []string{v}
+		}
+	}
+	dependent := func(v string) dplace {
+		ix, rd := idxOf(v)
+		switch g.Pick(8, "dep-place") {
+		case 0:
+			return dplace{text: "arr[" + ix + "]", typ: "T", reads: rd}
+		case 1:
+			return dplace{text: "sl[" + ix + "]", typ: "T", reads: rd}
+		case 2:
+			return dplace{text: "pa[" + ix + "]", typ: "T", reads: rd}
+		case 3:
+			return dplace{text: "m[" + ix + "]", typ: "T", reads: rd}
+		case 4:
+			return dplace{text: "m[" + v + "+5]", typ: "T", reads: []string{v}}
+		case 5:
+			return dplace{text: "as[" + v + "&1].f", typ: "T", reads: []string{v}}
+		case 6:
+			return dplace{text: "mp[" + v + "&1].f", typ: "T", reads: []string{v}}
+		default:
+			return dplace{text: "msl[" + v + "&1][(" + v + ">>1)&1]", typ: "T", reads: []string{v}}
+		}
+	}
+	anyPlace := func() dplace {
+		switch k := g.Pick(12, "dep-kind"); {
+		case k < 2:
+			return dplace{text: g.OneOf("dep-var", "x0", "x1", g.px+"g1"), typ: "T"}
+		case k < 4:
+			v := g.OneOf("dep-ivar", "i", "j")
+			return dplace{text: v, typ: "int", sets: v}
+		case k < 7:
+			return dependent(g.OneOf("dep-ivar", "i", "j"))
+		case k < 8:
+			return dplace{text: "*px", typ: "T", reads: []string{"px"}}
+		case k < 9:
+			f := g.OneOf("dep-field", "ps.f", "ps.in.f", "st.f")
+			if f == "st.f" {
+				return dplace{text: f, typ: "T"}
+			}
+			return dplace{text: f, typ: "T", reads: []string{"ps"}}
+		case k < 10:
+			if ptrOK {
+				if g.Bool("dep-ptr") {
+					return dplace{text: "px", typ: "px", sets: "px"}
+				}
+				return dplace{text: "ps", typ: "ps", sets: "ps"}
+			}
+			return dplace{text: g.OneOf("dep-var", "x0", "x1", g.px+"g1"), typ: "T"}
+		default:
+			if g.Bool("dep-blank-int") {
+				return dplace{text: "_", typ: "blankI"}
+			}
+			return dplace{text: "_", typ: "blankT"}
+		}
+	}
+	pl := make([]dplace, n)
+	for k := range pl {
+		pl[k] = anyPlace()
+	}
+	if g.Chance(3, 4, "dep-force") {
+		// make sure a control variable and a place reading it meet in the statement, in either order
+		v := g.OneOf("dep-ivar", "i", "j")
+		a := g.Pick(n, "dep-pos-a")
+		b := (a + 1 + g.Pick(n-1, "dep-pos-b")) % n
+		pl[a] = dplace{text: v, typ: "int", sets: v}
+		pl[b] = dependent(v)
+	}
+	// right-hand sides
+	isConst := make([]bool, n)
+	for k := range isConst {
+		switch mode {
+		case "const":
+			isConst[k] = true
+		case "mixed":
+			isConst[k] = g.Bool("dep-rhs-const")
+		}
+	}
+	if mode == "mixed" {
+		isConst[0], isConst[n-1] = g.Bool("dep-first-const"), false
+		if !isConst[0] {
+			isConst[n-1] = true
+		}
+	}
+	r := make([]string, n)
+	nconst := 0
+	for k, p := range pl {
+		c := isConst[k]
+		switch p.typ {
+		case "int", "blankI":
+			if c {
+				r[k] = fmt.Sprint(g.Int(0, 3, "dep-int"))
+			} else {
+				r[k] = g.OneOf("dep-int-expr", "(i+1)&3", "(j+2)&3", "j", "i", "(i^j)&3", fmt.Sprintf("%sk(%d, %d)", g.px, g.nextTag(), g.Int(0, 3, "dep-int")))
+			}
+		case "px":
+			c = false
+			r[k] = g.OneOf("dep-px", "&x0", "&x1")
+		case "ps":
+			c = false
+			r[k] = g.OneOf("dep-ps", "&st", "&"+g.px+"gs")
+		default:
+			if c {
+				r[k] = g.lit("")
+				if p.typ == "blankT" {
+					r[k] = g.typed(r[k])
+				}
+			} else {
+				r[k] = g.OneOf("dep-T-expr", "x0", "x1", "arr[2]", "sl[1]", "(x0 + x1)", fmt.Sprintf("%sf(%d, x1)", g.px, g.nextTag()), "st.f", "m[1]")
+			}
+		}
+		if c {
+			nconst++
+		}
+	}
+	// labels
+	g.Tag(fmt.Sprintf("dep:places=%d", n))
+	switch {
+	case nconst == n:
+		g.Tag("dep:rhs=all-const")
+	case nconst == 0:
+		g.Tag("dep:rhs=all-nonconst")
+	default:
+		g.Tag("dep:rhs=mixed")
+	}
+	last := pl[n-1]
+	if last.sets != "" || (last.typ == "T" && len(last.reads) == 0) || last.text == "_" {
+		g.Tag("dep:last-place=variable-or-blank")
+	} else {
+		g.Tag("dep:last-place=non-variable")
+	}
+	dep := false
+	for k, p := range pl {
+		for _, rd := range p.reads {
+			for q, o := range pl {
+				if o.sets == rd && q < k {
+					g.Tag("dep:operand-reads-variable-assigned-before")
+					dep = true
+				} else if o.sets == rd && q > k {
+					g.Tag("dep:operand-reads-variable-assigned-after")
+					dep = true
+				}
+			}
+		}
+	}
+	if dep {
+		g.Tag(fmt.Sprintf("dep:dependent,places=%d,const=%d", n, nconst))
+		g.nt = "multi-assignment whose index/key/pointer operand reads a variable assigned by the same statement"
+	} else {
+		g.Tag("dep:independent")
+	}
+	l := make([]string, n)
+	for k, p := range pl {
+		l[k] = p.text
+	}
+	return strings.Join(l, ", ") + " = " + strings.Join(r, ", ")
+}
+
 func (g *sgen) stmt() string {
 	g.stmtN++
 	var s string
 	multi := false
-	switch k := g.Pick(20, "stmt"); {
+	switch k := g.Pick(25, "stmt") - 5; {
+	case k < 0:
+		s = g.depMulti()
+		multi = true
 	case k < 4:
 		s = g.simple()
 	case k < 9:
@@ -523,7 +712,9 @@ func (g *sgen) stmt() string {
 		}
 		return g.panicking()
 	}
-	if nc := countCalls(s, g.px); nc >= 2 && (multi || strings.Contains(s, "= ") && !strings.Contains(s, " = ")) {
+	if strings.HasPrefix(g.nt, "multi-assignment whose") {
+		// keep the strongest class
+	} else if nc := countCalls(s, g.px); nc >= 2 && (multi || strings.Contains(s, "= ") && !strings.Contains(s, " = ")) {
 		g.nt = "order-observable(>=2 counting calls in one multi-assignment or op=)"
 	} else if nc >= 2 && g.nt == "" {
 		g.nt = "order-observable(>=2 counting calls in one assignment)"
